@@ -143,7 +143,7 @@ func (l *listener) Listen() error {
 	l.listener = listener
 	go func() {
 		for {
-			conn, err := l.listener.AcceptUnix()
+			conn, err := listener.AcceptUnix()
 			if err != nil {
 				select {
 				case <-l.closeQ:
